@@ -6,51 +6,57 @@
        print "Waiting for formatters...";  wg.Wait();  (back in main)  print "Done."
 
    Composition of the main goroutine with one goroutine per output, each performing exactly one
-   request of the Formatters specification (module Formatters, instantiated with Procs = outputs).
-   A formatter failure panics inside the goroutine: the process dies, "Done." is never printed.   *)
+   request of the Formatters specification (module Formatters, instantiated with Procs = the
+   possible outputs).  A formatter failure panics inside the goroutine: the process dies and
+   "Done." is never printed.  n (number of outputs of the run) and fmtOf (their formats) are
+   variables fixed by Init, so that one trace specification can replay runs of any shape.       *)
 EXTENDS Naturals, Sequences, FiniteSets, TLC
 
-CONSTANTS NOut,      \* number of output files
-          Tools,     \* formatter families in use
-          FormatOf   \* [1..NOut -> Tools]
+CONSTANTS MaxOut,    \* bound on the number of output files
+          Tools      \* formatter families
 
-Procs == 1..NOut
+Procs == 1..MaxOut
 MaxReq == 1
 
 VARIABLES avail, pc, req, nreq, lock, has, probes, runs, ret, touched
 F == INSTANCE Formatters
 
 VARIABLES phase,    \* "saving" | "waiting" | "done" | "crashed"
-          written   \* outputs written so far (a prefix of 1..NOut)
+          written,  \* outputs written so far (a prefix of 1..n)
+          n,        \* outputs of this run
+          fmtOf     \* [Procs -> Tools]
 fvars == <<avail, pc, req, nreq, lock, has, probes, runs, ret, touched>>
-vars == <<fvars, phase, written>>
+vars == <<fvars, phase, written, n, fmtOf>>
 
-Init == /\ F!Init /\ req = [p \in Procs |-> FormatOf[p]]
+Outs == 1..n
+
+Init == /\ F!Init
+        /\ n \in 0..MaxOut /\ fmtOf \in [Procs -> Tools]
         /\ phase = "saving" /\ written = {}
 
 Alive == phase \in {"saving", "waiting"}
 
 \* main: write output i and start its goroutine
-Write(i) == /\ phase = "saving" /\ i = Cardinality(written) + 1 /\ i <= NOut
+Write(i) == /\ phase = "saving" /\ i = Cardinality(written) + 1 /\ i <= n
             /\ written' = written \cup {i}
-            /\ UNCHANGED <<fvars, phase>>
+            /\ UNCHANGED <<fvars, phase, n, fmtOf>>
 
-WaitStart == /\ phase = "saving" /\ written = Procs
-             /\ phase' = "waiting" /\ UNCHANGED <<fvars, written>>
+WaitStart == /\ phase = "saving" /\ written = Outs
+             /\ phase' = "waiting" /\ UNCHANGED <<fvars, written, n, fmtOf>>
 
 \* goroutine p: its single FormatFile request, only once started by main
-GCall(p) == Alive /\ p \in written /\ F!Call(p, FormatOf[p]) /\ UNCHANGED <<phase, written>>
+GCall(p) == Alive /\ p \in written /\ F!Call(p, fmtOf[p]) /\ UNCHANGED <<phase, written, n, fmtOf>>
 GStep(p) == /\ Alive
             /\ \/ F!AcquireProbe(p) \/ F!ProbeEnd(p) \/ F!AcquireHit(p) \/ F!Release(p) \/ F!RunStart(p) \/ F!RunEnd(p)
-            /\ UNCHANGED <<phase, written>>
+            /\ UNCHANGED <<phase, written, n, fmtOf>>
 \* FormatFile returned nil: wg.Done()
-GReturn(p) == Alive /\ pc[p] = "toreturn" /\ ret[p] = "nil" /\ F!Return(p) /\ UNCHANGED <<phase, written>>
+GReturn(p) == Alive /\ pc[p] = "toreturn" /\ ret[p] = "nil" /\ F!Return(p) /\ UNCHANGED <<phase, written, n, fmtOf>>
 \* FormatFile returned an error: panic, the process dies
 GPanic(p) == /\ Alive /\ pc[p] = "toreturn" /\ ret[p] = "err"
-             /\ phase' = "crashed" /\ UNCHANGED <<fvars, written>>
+             /\ phase' = "crashed" /\ UNCHANGED <<fvars, written, n, fmtOf>>
 
-Finish == /\ phase = "waiting" /\ \A p \in Procs : pc[p] = "done"
-          /\ phase' = "done" /\ UNCHANGED <<fvars, written>>
+Finish == /\ phase = "waiting" /\ \A p \in Outs : pc[p] = "done"
+          /\ phase' = "done" /\ UNCHANGED <<fvars, written, n, fmtOf>>
 
 Next == \/ \E i \in Procs : Write(i)
         \/ WaitStart \/ Finish
@@ -61,21 +67,23 @@ Fairness == /\ WF_vars(\E i \in Procs : Write(i)) /\ WF_vars(WaitStart) /\ WF_va
 Spec == Init /\ [][Next]_vars /\ Fairness
 
 -----------------------------------------------------------------------------
-\* a file is never handed to a formatter before it is on disk
-FormatAfterWrite == \A p \in Procs : pc[p] # "idle" => p \in written
+\* a file is never handed to a formatter before it is on disk; nothing is formatted that is not an output
+FormatAfterWrite == \A p \in Procs : pc[p] # "idle" => p \in written /\ p \in Outs
 \* "Done." is only printed when every output went through its formatter successfully (or has none)
 DoneMeansAllFormatted ==
-    phase = "done" => \A p \in Procs : /\ pc[p] = "done" /\ ret[p] = "nil"
-                                       /\ (touched[p] <=> avail[FormatOf[p]] = "ok")
-                                       /\ runs[p] = (IF avail[FormatOf[p]] = "missing" THEN 0 ELSE 1)
+    phase = "done" => \A p \in Outs : /\ pc[p] = "done" /\ ret[p] = "nil" /\ req[p] = fmtOf[p]
+                                      /\ (touched[p] <=> avail[fmtOf[p]] = "ok")
+                                      /\ runs[p] = (IF avail[fmtOf[p]] = "missing" THEN 0 ELSE 1)
 \* a failing formatter is never silently ignored
-NoDoneAfterFailure == phase = "done" => \A p \in Procs : avail[FormatOf[p]] # "runfail"
-CrashOnlyOnFailure == phase = "crashed" => \E p \in Procs : avail[FormatOf[p]] = "runfail"
+NoDoneAfterFailure == phase = "done" => \A p \in Outs : avail[fmtOf[p]] # "runfail"
+CrashOnlyOnFailure == phase = "crashed" => \E p \in Outs : avail[fmtOf[p]] = "runfail"
 \* the cache is shared by all goroutines of the run
 ProbeAtMostOnce == F!ProbeAtMostOnce
 Mutex == F!MutualExclusion /\ F!AccessUnderLock
 CacheTruthful == F!CacheTruthful
+\* only the formatters of formats actually written are ever probed
+ProbeOnlyNeeded == \A t \in Tools : probes[t] > 0 => \E p \in written : fmtOf[p] = t
 
 Terminates == <>(phase \in {"done", "crashed"})
-DoneIfNoFailure == (\A p \in Procs : avail[FormatOf[p]] # "runfail") => <>(phase = "done")
+DoneIfNoFailure == (\A p \in Procs : avail[fmtOf[p]] # "runfail") ~> (phase = "done")
 =============================================================================
